@@ -456,11 +456,13 @@ Proof.
     + inversion H; subst. eapply inv_qp with (s := s0) (s1 := set_buffering s0 false); [exact HI0 | quiet_refl_like | apply pcu_finish | exact N0 | reflexivity].
     + inversion H; subst. eapply inv_qp with (s := s0) (s1 := set_buffering s0 true); [exact HI0 | quiet_refl_like | apply pcu_finish | exact N0 | reflexivity].
     + inversion H; subst. eapply inv_qp with (s := s0) (s1 := set_failing s0); [exact HI0 | quiet_refl_like | apply pcu_finish | exact N0 | reflexivity].
-    + inversion H; subst. apply inv_pc_update with (s := feed_ev s0 ev) (t := t) (p := PIdle).
-      * apply inv_feed. exact HI0.
-      * apply pcu_finish.
-      * apply neutral_after_feed. exact N0.
-      * reflexivity.
+    + destruct (Nat.eqb t rtid); inversion H; subst.
+      * eapply inv_pc_update; [exact HI0 | apply pcu_finish | exact N0 | reflexivity].
+      * apply inv_pc_update with (s := feed_ev s0 ev) (t := t) (p := PIdle).
+        -- apply inv_feed. exact HI0.
+        -- apply pcu_finish.
+        -- apply neutral_after_feed. exact N0.
+        -- reflexivity.
   - (* PW0 *)
     assert (neutral (pcof s t) = true) as N by (unfold pcof; rewrite Epc; reflexivity).
     destruct (closed s); [|destruct (buffering s)]; inversion H; subst.
